@@ -355,6 +355,11 @@ def r15c(rep, F):
             continue
         full = lin.canon(start) == lin.canon({1: 0}) and cond and cond[0] == 'le0' and \
             any('getStartStateCount' in str(k) for k, v in cond[1])
+        if not full and lin.canon(start) == lin.canon({1: 1}) and cond and cond[0] == 'le0' and any('getStartStateCount' in str(k) for k, v in cond[1]):
+            # accepted variant: start 0 seeds the accumulator before the loop (motionCostHeuristic(getStartState(0), ...)) and the loop runs from 1
+            pre = [c for c in fn.walk() if (c.get('callee') or '').endswith('::motionCostHeuristic') and fn.line(c) < fn.line(lp) and
+                   any((g.get('callee') or '').endswith('::getStartState') and lin.lin(fn, args(fn, g)[0]) == {1: 0} for g in fn.walk(args(fn, c)[0]))]
+            full = bool(pre)
         gets = [c for c in fn.walk(lp['body']) if (c.get('callee') or '').endswith('::getStartState')]
         uses = [c for c in gets if lin.lin(fn, args(fn, c)[0]) == {li: 1}]
         inmch = [c for c in fn.walk(lp['body']) if (c.get('callee') or '').endswith('::motionCostHeuristic')]
@@ -731,6 +736,51 @@ def r15h(rep, F):
     rep.require_count('R15h', 'erase-while-iterating loops', n, 1)
 
 
+def r15i(rep, F):
+    rep.rule('R15i', 'a sampler that overrides heuristicSolnCost uses its own heuristic in its acceptance tests: inside the member functions of '
+                     'such a class every call of heuristicSolnCost resolves to the class\'s own override (unqualified, virtually dispatched); a '
+                     'call qualified with the base class bypasses the override, so the lower / upper cost tests are made against a different '
+                     'cost than the one the sampled region is defined by.  And the clamp of the direct sampler\'s measure: the informed '
+                     'measure, multiplied by the measure of the uninformed subspace, is bounded by the measure of the WHOLE space '
+                     '(InformedSampler::space_), not of a subspace')
+    n = 0
+    owners = sorted({f.record for f in F.functions if f.name.endswith('::heuristicSolnCost') and f.body and f.record and
+                     f.record != B + 'InformedSampler'})
+    for rec in owners:
+        for f in F.functions:
+            if f.record != rec or not f.body:
+                continue
+            for c in f.walk():
+                if (c.get('callee') or '').endswith('::heuristicSolnCost'):
+                    n += 1
+                    own = c['callee'] == rec + '::heuristicSolnCost'
+                    k = len([1 for o in rep.obl if o['rule'] == 'R15i' and o['function'] == f.name and o['role'].startswith('own-heuristic')])
+                    rep.add('R15i', f.name, 'own-heuristic#%d' % k, own, f.where(c),
+                            'calls its own override' if own else
+                            'calls %s explicitly: the override %s::heuristicSolnCost, which defines the sampled region, is bypassed' %
+                            (c['callee'], rec.split('::')[-1]))
+    fs = [f for f in F.by_name.get(PLD + '::getInformedMeasure', []) if f.body and len(f.params) == 1]
+    if not fs:
+        raise AnalysisBroken('anchor vanished: getInformedMeasure')
+    fn = fs[0]
+    mins = [c for c in fn.walk() if (c.get('callee') or '') == 'std::min' and any(a['k'] == 'ReturnStmt' for a in fn.ancestors(c['id']))]
+    mult_sub = any(x['k'] == 'BinaryOperator' and x.get('op') == '*' and 'uninformedSubSpace_' in fn.fp(x['id']) for x in fn.walk())
+    n += 1
+    if not mins:
+        rep.add('R15i', fn.name, 'clamped-by-whole-space', False, fn.where(fn.nodes[fn.body]), 'the returned measure is not clamped by the measure of the space')
+    else:
+        whole = [a for a in mins[0]['ch'] if (fn.strip(a) or {}).get('callee', '').endswith('::getMeasure') and
+                 re.search(r'this\.space_\b|InformedSampler::space_', fn.fp(a))]
+        sub = [a for a in mins[0]['ch'] if (fn.strip(a) or {}).get('callee', '').endswith('::getMeasure') and 'SubSpace_' in fn.fp(a)]
+        ok = bool(whole) and not sub
+        rep.add('R15i', fn.name, 'clamped-by-whole-space', ok, fn.where(mins[0]),
+                'min(space_->getMeasure(), informed measure)' if ok else
+                'the measure%s is clamped by %s: in a compound space the product exceeds the subspace measure long before it exceeds the '
+                'whole space' % (' (already multiplied by the uninformed subspace measure)' if mult_sub else '',
+                                 re.sub(r'#\d+', '', fn.fp(sub[0])) if sub else 'something other than the whole space'))
+    rep.require_count('R15i', 'own-heuristic calls and the measure clamp', n, 2)
+
+
 def run(rep):
     F = facts.load_units(UNITS)
     rep.units.update(UNITS)
@@ -744,6 +794,7 @@ def run(rep):
     r15f(rep, F)
     r15g(rep, F)
     r15h(rep, F)
+    r15i(rep, F)
     rep.undecided('R15x', PHS + '::updateRotation', 'rotation', 'that the SVD solution of the Wahba problem is a rotation taking the first axis '
                   'to the focal axis is linear algebra; not decided')
     rep.undecided('R15x', 'ompl::RNG::uniformProlateHyperspheroid', 'uniformity', 'uniform density over the hyperspheroid is a statement about '
